@@ -659,3 +659,66 @@ Proof.
     + destruct Hd2 as [->|[c [-> Hc]]]; [destruct Hin|]. destruct Hin as [E|[]]. subst c.
       exact (no_blank_in _ ends_no_blank Hc).
 Qed.
+
+(* ---------------------------------------------------------------- the statements of props/Lorem.v in match form *)
+Lemma randint_outcome : forall a b s, a <= b ->
+  match randint a b s with
+  | LOk v r => a <= v <= b /\ exists d, s = d :: r /\ v = a + d mod (b - a + 1)
+  | LExhausted => s = []
+  | LFuel => False
+  | LInternal _ => False
+  end.
+Proof.
+  intros a b s H. pose proof (randint_spec a b s H) as Hs. unfold randint in *.
+  destruct (b <? a); [destruct Hs|]. destruct s; [reflexivity|exact Hs].
+Qed.
+
+Lemma sample_outcome : forall arr count s,
+  match sample arr count s with
+  | LOk res r => Forall (fun w => In w arr) res /\ zlen res = Z.max (Z.min (zlen arr) count) 0 /\ (length r <= length s)%nat
+  | LExhausted => True
+  | LFuel => False
+  | LInternal _ => False
+  end.
+Proof. intros. pose proof (sample_spec arr count s) as H. destruct (sample arr count s); exact H. Qed.
+
+Lemma insert_commas_outcome : forall words s, Forall (fun w => good_word w = true) words ->
+  match insert_commas words s with
+  | LOk ws r => Forall2 decorated ws words /\ (forall d, last ws d = last words d) /\ (length r <= length s)%nat
+  | LExhausted => True
+  | LFuel => False
+  | LInternal _ => False
+  end.
+Proof.
+  intros words s Hg. pose proof (insert_commas_spec words s Hg) as H.
+  destruct (insert_commas words s); simpl in *; tauto.
+Qed.
+
+Lemma paragraph_outcome : forall db wc common fuel s,
+  db_ok db = true -> 1 <= wc -> (length s < fuel)%nat ->
+  match paragraph fuel db wc common s with
+  | LOk t r => is_paragraph db wc common t /\ (length r <= length s)%nat
+  | LExhausted => True
+  | LFuel => False
+  | LInternal _ => False
+  end.
+Proof.
+  intros db wc common fuel s Hdb Hwc Hf. pose proof (paragraph_spec db wc common fuel s Hdb Hwc Hf) as H.
+  destruct (paragraph fuel db wc common s); simpl in *; try tauto.
+  destruct H as [sents [H1 [H2 [H3 [H4 H5]]]]]. split; [|exact H4]. exists sents. auto.
+Qed.
+
+Lemma vocabularies_sweep :
+  forallb (fun kv => db_ok (snd kv)) lorem_vocabularies = true /\ assoc_str s_latin lorem_vocabularies <> None.
+Proof. split; [exact vocabularies_ok|exact latin_present]. Qed.
+
+Lemma header_range : forall minw maxw, 1 <= lorem_min minw <= lorem_max minw maxw.
+Proof. intros. split; [apply lorem_min_pos|apply lorem_min_max]. Qed.
+
+Lemma lorem_text_result : forall lang minw maxw common s t rest,
+  lorem_text lang minw maxw common s = LOk t rest ->
+  exists db wc, lorem_db lang = Some db /\ lorem_min minw <= wc <= lorem_max minw maxw /\ is_paragraph db wc common t.
+Proof.
+  intros lang minw maxw common s t rest E. pose proof (lorem_text_spec lang minw maxw common s) as H.
+  rewrite E in H. simpl in H. destruct H as [_ H]. exact H.
+Qed.
